@@ -40,3 +40,5 @@ pub mod ___Appendix_C;
 
 pub mod lang;
 pub mod mach;
+#[cfg(feature = "verif")]
+pub mod verif;
